@@ -196,6 +196,12 @@ class Tr(object):
                 return '(%d : Int)' % self.consts[n.id]
             if n.id in self.consts and isinstance(self.consts[n.id], str):
                 return self.consts[n.id]
+            # a module-level int constant of the translated function's module (constant naming convention only,
+            # so that a local can never be mistaken for one)
+            if self.scope is not None and n.id.upper() == n.id and any(ch.isalpha() for ch in n.id):
+                v = getattr(self.scope[1], n.id, None)
+                if isinstance(v, int) and not isinstance(v, bool):
+                    return '(%d : Int)' % v
             return n.id
         if isinstance(n, ast.Attribute):
             if key in self.consts and isinstance(self.consts[key], int):
